@@ -151,7 +151,7 @@ pub fn run(ctx: &mut Ctx) {
     ctx.more_samples(2);
     let n = ctx.nshards as u32;
     let r = reps();
-    drive(ctx, "nested", ctx.tier.pick(40_000, 1_000_000) / n, 6, 60, |ctx, bytes| {
+    drive(ctx, "nested", ctx.tier.pick(160_000, 2_000_000) / n, 6, 60, |ctx, bytes| {
         let mut c = Choices::new(bytes);
         let mut probe = 100;
         let e = tree(&mut c, &r, 4, &mut probe);
